@@ -6,9 +6,10 @@ tree (VERIF_REPO) and record everything under /verif/seeded/<Cxx>-<k>/."""
 import json, os, shutil, subprocess, sys, time
 P, K = sys.argv[1], sys.argv[2]
 CHECKS = sys.argv[3:] or [P]
-WT = "/tmp/seed-%s" % P
+RND = os.environ.get("SEED_ROUND", "1")
+WT = "/tmp/seed-%s" % P if RND == "1" else "/tmp/seed%s-%s" % (RND, P)
 OUT = os.path.join(WT, "out", K)
-DEST = "/verif/seeded/%s-%s" % (P, K)
+DEST = "/verif/seeded/%s-%s" % (P, K) if RND == "1" else "/verif/seeded/%s-r%s-%s" % (P, RND, K)
 
 def sh(cmd, cwd=None, timeout=3600, env=None):
     try:
